@@ -20,7 +20,7 @@ PROPS = {
     },
     'C09': {
         'lean': 'C09',
-        'corr': [_f('comp_chunk', 'corr')],
+        'corr': [_f('comp_chunk', 'corr'), _f('comp_download', 'corr')],
         'oracles': [_f('comp_chunk', 'oracle')],
         'modelled': ['utils.ReadFileChunk', 'upload.AggregatedProgressCallback', 'utils.StreamReaderProgress',
                      "botocore's use of a request body (not-transferring / signing reads / seek(0) / transferring / rewinds)"],
